@@ -148,6 +148,7 @@ class C07(c01.C01):
             out.filters["unification-raises"] += 1
             return
         want = observe.dobs_set(u)
+        observe.touch(doc)
         verdicts = []
         for direction in (1, -1):
             set_bnode_order(direction)
